@@ -203,6 +203,9 @@ def run(model, col, tier):
             for ln_ in sorted(lists_):
                 nreb += 1
                 ok_, why_ = appends_once_per_iteration(lp_, ln_)
+                installed = any(isinstance(c, ast.Call) and last_attr(c) == "SetArguments" and c.args and unparse(c.args[0]) == ln_ and c.lineno > lp_.lineno for c in ast.walk(hh))
+                col.check(installed, "R14.6", f"nsl/passes/AddImplicitCasts.py::{hname} installs `{ln_}`", "the rebuilt list replaces the node's arguments (SetArguments)",
+                          f"the list `{ln_}` with the converted arguments is built but never installed: the conversions of call / constructor arguments are silently dropped", "nsl/passes/AddImplicitCasts.py", hh)
                 col.check(ok_, "R14.6", f"nsl/passes/AddImplicitCasts.py::{hname} rebuilds `{ln_}` one element per argument", "every argument (converted or not) is appended exactly once",
                           f"{why_}: the rebuilt argument list no longer has one entry per argument, so the call instruction passes fewer (or more) operands than the callee has parameters",
                           "nsl/passes/AddImplicitCasts.py", lp_)
